@@ -1,11 +1,10 @@
-\* aliasing case excluded: small x3, FULL, small
+\* refinement: small x3, FULL, small
 SPECIFICATION Spec
 VIEW View
 CONSTANTS
   NV = 2
   W = 4
   Depth = 5
-  Mode = "noalias"
   Emit = "none"
   Pick = "all"
   FullLevels = {4}
@@ -14,6 +13,7 @@ CONSTANTS
   XOffs = {}
   XLens = {}
   MaxLen = 11
+  Mutant = "none"
   Prof <- ProfByLevel
 INVARIANT InvFlatTypeOK
 INVARIANT InvWellFormed
